@@ -14,30 +14,22 @@ theorem removeConsolidate_none (f : Forest) : f.removeConsolidate none none = (f
 
 theorem addConsolidate_of_textOf_none (f : Forest) (node : Nat) (prev next : Option Nat)
     (h : f.textOf node = none) : f.addConsolidate node prev next = (f, false) := by
-  unfold addConsolidate; rw [h]; split <;> rfl
+  rw [addConsolidate_eq_old]; exact addConsolidateOld_not_text h _ _
 
 theorem addConsolidate_off_ff (f : Forest) (node : Nat) (prev next : Option Nat)
     (h : f.consolidation = false) : f.addConsolidate node prev next = (f, false) := by
-  unfold addConsolidate; simp [h]
+  rw [addConsolidate_eq_old]; exact addConsolidateOld_off h _ _ _
 
 theorem addConsolidate_no_text_neighbour (f : Forest) (node : Nat) (prev next : Option Nat)
     (hp : ∀ p, prev = some p → f.textOf p = none) (hn : ∀ n, next = some n → f.textOf n = none) :
     f.addConsolidate node prev next = (f, false) := by
-  unfold addConsolidate
-  split
-  · rfl
-  · cases f.textOf node with
-    | none => rfl
-    | some added =>
-      cases prev with
-      | none =>
-        cases next with
-        | none => rfl
-        | some n => simp [hn n rfl]
-      | some p =>
-        cases next with
-        | none => simp [hp p rfl]
-        | some n => simp [hp p rfl, hn n rfl]
+  cases hnode : f.textOf node with
+  | none => rw [addConsolidate_eq_old]; exact addConsolidateOld_not_text hnode _ _
+  | some added =>
+    have h1 : prev ≠ some node := fun h => by rw [hp node h] at hnode; cases hnode
+    have h2 : next ≠ some node := fun h => by rw [hn node h] at hnode; cases hnode
+    rw [addConsolidate_eq_old_of_ne h1 h2]
+    exact addConsolidateOld_nontext_neighbours hp hn
 
 theorem textOf_eq_none_of_value {f : Forest} {h : Nat} {v : Value} (hv : f.value? h = some v)
     (ht : v.isText = false) : f.textOf h = none := by
